@@ -288,6 +288,9 @@ func main() {
 	r.Register("rrs", runRRS(r))
 	r.Register("pdns", runPDNS(r))
 	r.Register("nbns", runNBNS(r))
+	r.Register("nbenc", runNBEnc(r))
+	r.Register("nbdec", runNBDec(r))
+	r.Register("nna", runNNA(r))
 	if r.Replayed() {
 		return
 	}
@@ -295,5 +298,6 @@ func main() {
 	genRRS(r, rng)
 	genPDNS(r, rng)
 	genNBNS(r, rng)
+	genNBName(r, rng)
 	genMerge(r, rng)
 }
